@@ -12,7 +12,7 @@ import subprocess
 import sys
 
 from pyvc import core
-from pyvc.domain import Grammar, NAMES
+from pyvc.domain import Grammar
 
 __all__ = [
     'RULE_C11', 'cases_C11', 'oracle_C11', 'classify_C11', 'smoke_C11',
@@ -21,6 +21,7 @@ __all__ = [
     'RULE_C15', 'cases_C15', 'oracle_C15', 'classify_C15', 'smoke_C15',
     'RULE_C18', 'cases_C18', 'oracle_C18', 'classify_C18', 'smoke_C18',
     'RULE_C19', 'cases_C19', 'oracle_C19', 'classify_C19', 'smoke_C19',
+    'RULE_C20', 'cases_C20', 'oracle_C20', 'classify_C20', 'smoke_C20',
 ]
 
 _VENV_PY = os.path.join(core.VERIF, '.venv', 'bin', 'python')
@@ -91,7 +92,7 @@ RULE_C11 = (
     'punctuation), script B with seps_b which differs from seps_a only where seps_a is non-empty and is again '
     'non-empty whitespace from {" ", "  ", TAB, LF, CRLF, " LF "}.  Words lying inside a Keyword token of A (found by '
     'tokenising A) are re-cased in B (same/upper/lower/alternating).  Per script: every uniform replacement x '
-    'casing, then every single whitespace position replaced by LF and by two blanks, then seeded random '
+    'casing, then every single whitespace position replaced by LF and by two blanks (thorough: also TAB), then seeded random '
     'assignments.  Non-trivial: B differs from A.  Compared: len(split), len(parse), get_type() per statement and '
     'the tree with whitespace leaves removed (group -> class name, leaf -> ttype; keyword leaves compared '
     'upper-cased with inner whitespace collapsed, other leaves by value).')
@@ -267,7 +268,7 @@ def oracle_C11(case):
 
 def _c11_scripts(tier, seed):
     rnd = random.Random(seed * 7919 + 11)
-    n = 420 if tier == 'quick' else 6000
+    n = 420 if tier == 'quick' else 2500
     for lx in _C11_FIXED:
         yield tuple(lx)
     for k in range(n):
@@ -327,11 +328,11 @@ def cases_C11(tier, seed):
         for i, s in enumerate(sa):
             if not s:
                 continue
-            for ws in ('\n', '  ') if tier == 'quick' else _C11_WS:
+            for ws in ('\n', '  ') if tier == 'quick' else ('\n', '  ', '\t'):
                 if ws != s:
                     yield (lex, sa, sa[:i] + (ws,) + sa[i + 1:], 'same')
         # seeded random assignments
-        for _ in range(6 if tier == 'quick' else 30):
+        for _ in range(6 if tier == 'quick' else 12):
             sb = tuple(rnd.choice(_C11_WS) if s else '' for s in sa)
             yield (lex, sa, sb, rnd.choice(_C11_CASINGS))
 
@@ -763,7 +764,7 @@ def cases_C13(tier, seed):
                 c = cond if kwf is up else _lower_kw(cond)
                 for ws in _C13_WS:
                     yield ('where', prefix, (kwf('WHERE'),) + tuple(c), rest, ws)
-    n = 900 if quick else 12000
+    n = 1800 if quick else 12000
     for _ in range(n):
         case = rnd.choice(('upper', 'lower'))
         g = Grammar(seed=rnd.randrange(1 << 30), max_depth=2, kw_case=case)
@@ -779,7 +780,7 @@ def cases_C13(tier, seed):
     for a, b in itertools.product(_C13_ITEMS, repeat=2):
         for (prefix, rest) in sel_ctx[:1] if quick else sel_ctx:
             yield ('idlist', prefix, (a, b), rest, ' ')
-    for _ in range(1500 if quick else 20000):
+    for _ in range(2500 if quick else 20000):
         k = rnd.choice((2, 3, 3, 4))
         items = tuple(rnd.choice(_C13_ITEMS) for _ in range(k))
         prefix, rest = rnd.choice(sel_ctx)
@@ -794,14 +795,14 @@ def cases_C13(tier, seed):
     for a, b in itertools.product(refs, repeat=2):
         for prefix, rest in from_ctx[:2] if quick else from_ctx:
             yield ('idlist', prefix, (a, b), rest, ' ')
-    for _ in range(800 if quick else 10000):
+    for _ in range(1600 if quick else 10000):
         k = rnd.choice((2, 3, 4))
         items = tuple(rnd.choice(refs) for _ in range(k))
         prefix, rest = rnd.choice(from_ctx)
         if rnd.random() < 0.5:
             items, prefix, rest = tuple(_lower_kw(i) for i in items), _lower_kw(prefix), _lower_kw(rest)
         yield ('idlist', prefix, items, rest, rnd.choice(_C13_WS))
-    for _ in range(1500 if quick else 20000):
+    for _ in range(3000 if quick else 20000):
         g = Grammar(seed=rnd.randrange(1 << 30), max_depth=2, kw_case=rnd.choice(('upper', 'lower')))
         k = rnd.choice((2, 3, 4))
         if rnd.random() < 0.6:
@@ -834,7 +835,7 @@ def cases_C13(tier, seed):
         if rnd.random() < 0.5:
             args, prefix, rest = tuple(_lower_kw(i) for i in args), _lower_kw(prefix), _lower_kw(rest)
         yield ('func', prefix, name, args, rest, rnd.choice(_C13_WS))
-    for _ in range(800 if quick else 10000):
+    for _ in range(2000 if quick else 10000):
         g = Grammar(seed=rnd.randrange(1 << 30), max_depth=2, kw_case=rnd.choice(('upper', 'lower')))
         args = tuple(tuple(g.expr(rnd.choice((0, 1, 2)))) for _i in range(rnd.randint(0, 3)))
         if sum(len(i) for i in args) > 60:
@@ -845,7 +846,7 @@ def cases_C13(tier, seed):
     cctx = [(('SELECT',), ('FROM', 't')), (('SELECT', 'a', ','), ('AS', 'c', 'FROM', 't')),
             (('SELECT', '*', 'FROM', 't', 'WHERE'), ('=', '1')), (('SELECT', 'f', '('), (',', '1', ')')),
             (('UPDATE', 't', 'SET', 'a', '='), ('WHERE', 'b', '=', '1'))]
-    for _ in range(2500 if quick else 30000):
+    for _ in range(5000 if quick else 30000):
         g = Grammar(seed=rnd.randrange(1 << 30), max_depth=2, kw_case=rnd.choice(('upper', 'lower')))
         d = rnd.choice((0, 0, 1, 2))
         operand = tuple(g.atom(0)) if rnd.random() < 0.3 else None
@@ -873,7 +874,7 @@ def cases_C13(tier, seed):
         if rnd.random() < 0.5:
             l, r, op, prefix, rest = _lower_kw(l), _lower_kw(r), op.lower(), _lower_kw(prefix), _lower_kw(rest)
         yield ('cmp', prefix, l, op, r, rest, rnd.choice(_C13_WS))
-    for _ in range(1000 if quick else 10000):
+    for _ in range(2500 if quick else 10000):
         g = Grammar(seed=rnd.randrange(1 << 30), max_depth=2, kw_case=rnd.choice(('upper', 'lower')))
         d = rnd.choice((0, 1, 1, 2))
         l, r = tuple(g.expr(d)), tuple(g.expr(d))
@@ -938,8 +939,8 @@ RULE_C15 = (
     '1000, 5000 x recursion limits 200 and 300, and depths 50, 100 with limit 1000 (a case costs many seconds '
     'once the tree grows some hundred levels deep before the limit is hit): every (entry, kind) pair once with '
     '(depth, limit) assigned round-robin, parse and format(reindent) x 4 kinds with every (depth, limit), plus seeded '
-    'extras (about 190 cases).  thorough: full product over depths 50..20000 x limits 200, 400 and depths <= 1000 x '
-    'limit 1000, plus depth 5000 / limit 1000 for parse and format(reindent).  The child sets the limit, calls the entry point, '
+    'extras (about 200 cases).  thorough: full product over depths 50..20000 x limits 200, 400 and depths <= 300 x '
+    'limit 1000, depth 1000 / limit 1000 for five entry points, depth 5000 / limit 1000 for parse and format(reindent).  The child sets the limit, calls the entry point, '
     'checks the round trip on success, then calls parse / format(reindent=True) on ordinary input.  Allowed: '
     'success or SQLParseError.  Failures: RecursionError or any other exception, wrong round trip, death of the '
     'child (signal, non-zero exit), later ordinary call failing.')
@@ -1093,11 +1094,13 @@ def cases_C15(tier, seed):
     pairs = [(d, l) for d in _C15_DEPTHS for l in (200, 300)] + [(50, 1000), (100, 1000)]
     if tier != 'quick':
         pairs = [(d, l) for d in (50, 100, 300, 1000, 5000, 20000) for l in (200, 400)] + \
-                [(d, 1000) for d in (50, 100, 300, 1000)]
+                [(d, 1000) for d in (50, 100, 300)]
         for e, o in _C15_ENTRIES:
             for k in _C15_KINDS:
                 for d, l in pairs:
                     yield (e, o, k, d, l)
+                if (e, o) in (_C15_ENTRIES[0], _C15_ENTRIES[2], _C15_ENTRIES[4], _C15_ENTRIES[5], _C15_ENTRIES[6]):
+                    yield (e, o, k, 1000, 1000)      # 10-40 s each
         for e, o in (_C15_ENTRIES[0], _C15_ENTRIES[5]):
             for k in ('paren', 'func', 'case'):
                 yield (e, o, k, 5000, 1000)
@@ -1285,8 +1288,8 @@ def smoke_C18():
 # ======================================================================================================== C19
 
 RULE_C19 = (
-    "Library half, case (text, 'lib'): the results of parse (tree as plain data), parsestream, split, format() and "
-    'format(reindent=True) for the str are compared with the results for: bytes + encoding for every encoding of '
+    "Library half, case (text, 'lib'): the results of parse (tree as plain data), split and format(reindent=True) "
+    '(for stream forms also parsestream and format()) for the str are compared with the results for: bytes + encoding for every encoding of '
     '{utf-8, latin-1, gbk, cp1251, utf-16} that can represent the text, UTF-8 bytes without encoding, '
     'io.StringIO, a TextIOWrapper over the UTF-8 bytes; and for every encoding of {latin-1, gbk, cp1251} whose '
     'bytes are not valid UTF-8: bytes without encoding must give the result of the Latin-1 reading of those '
@@ -1332,11 +1335,11 @@ _C19_CLI_TEXTS = (
 )
 
 
-def _c19_results(mk, encoding):
-    """results of the five calls for one input form; mk() makes a fresh argument (streams are consumed)"""
+def _c19_results(mk, encoding, names=('parse', 'split', 'format_reindent')):
+    """results of the calls for one input form; mk() makes a fresh argument (streams are consumed)"""
     import sqlparse
     out = []
-    for name in ('parse', 'parsestream', 'split', 'format', 'format_reindent'):
+    for name in names:
         try:
             arg = mk()
             if name == 'parse':
@@ -1353,6 +1356,9 @@ def _c19_results(mk, encoding):
             r = ('raised', type(e).__name__)
         out.append((name, r))
     return out
+
+
+_C19_ALL = ('parse', 'parsestream', 'split', 'format', 'format_reindent')
 
 
 def _c19_opts(flags):
@@ -1462,7 +1468,12 @@ def oracle_C19(case):
     if kind != 'lib':
         return None
     try:
-        base = _c19_results(lambda: text, None)
+        base_all = _c19_results(lambda: text, None, _C19_ALL)
+        d = dict(base_all)
+        if d['parsestream'] != d['parse']:
+            return {'what': 'parsestream-vs-parse', 'input': text, 'observed': _clip(d['parsestream'], 200),
+                    'expected': _clip(d['parse'], 200)}
+        base = [(n, r) for n, r in base_all if n in ('parse', 'split', 'format_reindent')]
         forms = []
         for enc in _C19_ENCODINGS:
             try:
@@ -1471,25 +1482,21 @@ def oracle_C19(case):
                     continue
             except (UnicodeError, LookupError):
                 continue
-            forms.append(('bytes+' + enc, (lambda b=b: b), enc, base))
+            forms.append(('bytes+' + enc, (lambda b=b: b), enc, base, None))
             if enc == 'utf-8':
-                forms.append(('utf8-bytes-no-encoding', (lambda b=b: b), None, base))
+                forms.append(('utf8-bytes-no-encoding', (lambda b=b: b), None, base, None))
                 forms.append(('TextIOWrapper', (lambda b=b: io.TextIOWrapper(io.BytesIO(b), encoding='utf-8', newline='')),
-                              None, base))
+                              None, base_all, _C19_ALL))
             elif enc != 'utf-16':
                 try:
                     b.decode('utf-8')
                 except UnicodeDecodeError:
                     as_latin1 = b.decode('latin-1')
                     want = base if as_latin1 == text else _c19_results(lambda: as_latin1, None)
-                    forms.append(('non-utf8-bytes-no-encoding(%s)' % enc, (lambda b=b: b), None, want))
-        forms.append(('StringIO', (lambda: io.StringIO(text)), None, base))
-        for name, r in base:
-            if name == 'parsestream' and r != dict(base)['parse']:
-                return {'what': 'parsestream-vs-parse', 'input': text, 'observed': _clip(r, 200),
-                        'expected': _clip(dict(base)['parse'], 200)}
-        for label, mk, enc, want in forms:
-            got = _c19_results(mk, enc)
+                    forms.append(('non-utf8-bytes-no-encoding(%s)' % enc, (lambda b=b: b), None, want, None))
+        forms.append(('StringIO', (lambda: io.StringIO(text)), None, base_all, _C19_ALL))
+        for label, mk, enc, want, names in forms:
+            got = _c19_results(mk, enc, names) if names else _c19_results(mk, enc)
             for (name, g), (_, w) in zip(got, want):
                 if g != w:
                     return {'what': '%s:%s' % (label, name), 'input': text, 'observed': _clip(g, 200),
@@ -1529,7 +1536,7 @@ def cases_C19(tier, seed):
     from pyvc.domain import SEPARATORS, render
     rnd = random.Random(seed * 977 + 19)
     cli = list(_c19_cli_cases(tier))
-    n_lib = 5000 if tier == 'quick' else 60000
+    n_lib = 3000 if tier == 'quick' else 40000
     every = max(1, n_lib // (len(cli) + 1))
     count = 0
 
@@ -1539,17 +1546,17 @@ def cases_C19(tier, seed):
         for t in _C19_CLI_TEXTS:
             yield t
         seps = [s for s in SEPARATORS if s] + [' -- é\n', ' /* 業 */ ']
-        for _ in range(n_lib * 6 // 10):
-            g = Grammar(seed=rnd.randrange(1 << 30), max_depth=rnd.choice((1, 2)), kw_case=rnd.choice(('upper', 'lower')))
+        for _ in range(n_lib * 4 // 10):
+            g = Grammar(seed=rnd.randrange(1 << 30), max_depth=1, kw_case=rnd.choice(('upper', 'lower')))
             parts = []
-            for j in range(rnd.choice((1, 1, 2, 3))):
+            for j in range(rnd.choice((1, 1, 2))):
                 lex = g.plain_stmt()
                 if rnd.random() < 0.5:
                     lex = [("'%s'" % rnd.choice(('é', 'ü ß', 'Привет', '你好', 'a\\b', 'ÿ'))) if x in ("'s'", "''") else x
                            for x in lex]
                 parts.append(render(lex, rnd, seps=seps if rnd.random() < 0.3 else (' ',), glue=rnd.random() < 0.5))
             yield rnd.choice((';', '; ', ';\n', ';\r\n')).join(parts) + rnd.choice(('', ';', '\n', ';\r\n'))
-        for _ in range(n_lib * 4 // 10):
+        for _ in range(n_lib * 6 // 10):
             k = rnd.randint(1, 7)
             sp = rnd.choice((' ', ' ', '', '\n'))
             yield sp.join(rnd.choice(_C19_SOUP) for _ in range(k))
@@ -1580,4 +1587,477 @@ def smoke_C19():
         ('select a, b from t where x = 1', ('cli', ('-r',), 'file', 'stdout', 'utf-8')),
         ("select 'é' from t", ('cli', ('-k', 'upper'), 'stdin', 'outfile', 'latin-1')),
         ("select 'Привет', ю from т", ('cli', ('-r', '-k', 'upper'), 'file', 'outfile', 'cp1251')),
+    ]
+
+
+# ======================================================================================================== C20
+
+RULE_C20 = (
+    'case = (history kind, params); params carry the probe calls (api, text, options) explicitly.  Sequential kinds: '
+    'the probes are evaluated, the history runs, the probes are evaluated again and must give the same plain data '
+    '(tree / list of strings / string).  Histories: raise_options (calls with invalid options), raise_recursion '
+    '(deeply nested input under a recursion limit set just above the current depth), abandon (parsestream / '
+    'tokenize / FilterStack.run generators advanced k times and dropped or kept alive), interleave (several '
+    'parsestream or tokenize generators advanced by a seeded schedule; each must yield what it yields alone), '
+    'reconfig (add_keywords, set_SQL_REGEX with reduced / reordered rules, clear(), calls in between, then '
+    'default_initialization()), options_seq (10-30 calls with other texts and option sets, e.g. reindent and '
+    "output_format='python' repeatedly), vs_fresh (results after a history compared with the same probes evaluated "
+    'in a fresh child interpreter).  threads: 2-8 threads released by a barrier with switch interval 1e-6, each '
+    'running its own calls several times, must each get the sequential results.  first_call_race: a fresh child '
+    'imports the package, starts 8-16 threads whose first action is sqlparse.parse / format, all results must '
+    'equal the results computed in this process.  Probes and histories are drawn by seed from 16 probe '
+    'templates, grammar scripts and 12 option sets; every history ends with default_initialization() and '
+    'restores the recursion limit / switch interval in a finally block.  quick: about 1 700 cases of which 40 '
+    'start a child; thorough: 10x.')
+
+_C20_OPTSETS = (
+    (), (('reindent', True),), (('reindent_aligned', True),), (('keyword_case', 'upper'),),
+    (('identifier_case', 'upper'), ('use_space_around_operators', True)), (('strip_comments', True), ('keyword_case', 'lower')),
+    (('output_format', 'python'),), (('output_format', 'python'), ('reindent', True)), (('output_format', 'php'),),
+    (('strip_whitespace', True),), (('reindent', True), ('comma_first', True), ('wrap_after', 10), ('indent_width', 3)),
+    (('truncate_strings', 5),), (('reindent', True), ('indent_tabs', True)),
+)
+_C20_TEXTS = (
+    'select a, b from t where x = 1',
+    'select 1; select 2;\ncreate function f() begin x := 1; end; select 3',
+    'select a, b from t where x = 1 and y in (select 1 from u where z > 2) order by a',
+    "select a, 'long string literal' from t; select c from u; insert into v values (1, 'x')",
+    'select * from foo -- c\nwhere a=1 /* d */ and b+c>2',
+    'select a,b as c from t join u on t.id=u.id group by a having count(*)>1',
+    'create or replace function fn1 (p1 int) returns int as begin if a = 1 then x := 1; end if; return 2; end',
+    'select 1\nGO\nselect 2',
+    'update "T" set "x" = case when y = 1 then \'a\' else \'b\' end where z is not null',
+    "select 'é', 業者 from t /* ü */",
+    'with w as (select 1) select * from w limit 1',
+    'select f(a, g(b), 1+2) from t where d > date \'2020-01-01\'',
+    '', ';', 'select (((1)))', 'insert into t (a, b) values (1, 2), (3, 4)',
+)
+_C20_BAD_OPTS = (
+    (('reindent', 2),), (('keyword_case', 'foo'),), (('indent_width', -1), ('reindent', True)), (('output_format', 5),),
+    (('truncate_strings', 'x'),), (('identifier_case', 1),), (('wrap_after', -3), ('reindent', True)),
+    (('strip_comments', 'yes'),), (('reindent', True), ('reindent_aligned', 'no')), (('right_margin', 'wide'),),
+    (('indent_tabs', 3),), (('comma_first', 'x'), ('reindent', True)), (('use_space_around_operators', 7),),
+)
+_C20_TYPES = {'Name': 'Name', 'Keyword': 'Keyword', 'Keyword.DML': 'Keyword.DML', 'Keyword.DDL': 'Keyword.DDL',
+              'Name.Builtin': 'Name.Builtin', 'Error': 'Error'}
+
+
+def _c20_call(api, text, opts):
+    import sqlparse
+    try:
+        if api == 'parse':
+            return [_plain_tree(s) for s in sqlparse.parse(text)]
+        if api == 'split':
+            return list(sqlparse.split(text, **dict(opts)))
+        if api == 'format':
+            return sqlparse.format(text, **dict(opts))
+        if api == 'tokens':
+            return [(str(t), v) for t, v in sqlparse.lexer.tokenize(text)]
+    except Exception as e:
+        return ('raised', type(e).__name__)
+    return None
+
+
+def _c20_ttype(name):
+    from sqlparse import tokens as T
+    t = T
+    for part in name.split('.'):
+        t = getattr(t, part)
+    return t
+
+
+def _c20_depth():
+    f = sys._getframe()
+    n = 0
+    while f is not None:
+        n += 1
+        f = f.f_back
+    return n
+
+
+def _c20_regex(which):
+    from sqlparse import keywords as K, tokens as T
+    if which == 'words_only':
+        return [(r'\s+', T.Whitespace), (r'\w+', T.Name), (r'.', T.Punctuation)]
+    if which == 'default_reversed':
+        return list(reversed(K.SQL_REGEX))
+    if which == 'no_keyword_rule':
+        return [(rx, tt) for rx, tt in K.SQL_REGEX if tt is not K.PROCESS_AS_KEYWORD]
+    if which == 'empty':
+        return []
+    return list(K.SQL_REGEX)
+
+
+def _c20_history(kind, h):
+    """run one disturbing history; everything it raises is swallowed (the property is about the later calls)"""
+    import sqlparse
+    from sqlparse.lexer import Lexer
+    keep = []
+    if kind == 'raise_options':
+        for text, opts in h:
+            try:
+                sqlparse.format(text, **dict(opts))
+            except Exception:
+                pass
+    elif kind == 'raise_recursion':
+        nest, depth, margin, api = h
+        text = {'paren': 'select ' + '(' * depth + '1' + ')' * depth,
+                'case': 'select ' + 'case when a then ' * depth + '1' + ' end' * depth,
+                'func': 'select ' + 'f(' * depth + '1' + ')' * depth}.get(nest, '(' * depth)
+        old = sys.getrecursionlimit()
+        try:
+            sys.setrecursionlimit(_c20_depth() + margin)
+            try:
+                if api == 'parse':
+                    sqlparse.parse(text)
+                elif api == 'split':
+                    sqlparse.split(text)
+                else:
+                    sqlparse.format(text, reindent=True)
+            except BaseException:
+                pass
+        finally:
+            sys.setrecursionlimit(old)
+    elif kind == 'abandon':
+        for what, text, k, how in h:
+            try:
+                if what == 'parsestream':
+                    g = sqlparse.parsestream(text)
+                elif what == 'tokenize':
+                    g = sqlparse.lexer.tokenize(text)
+                else:
+                    st = sqlparse.engine.FilterStack()
+                    st.enable_grouping()
+                    g = st.run(text)
+                for _ in range(k):
+                    next(g, None)
+                if how == 'keep':
+                    keep.append(g)
+                elif how == 'close':
+                    g.close()
+                else:
+                    del g
+            except Exception:
+                pass
+    elif kind == 'reconfig':
+        lex = Lexer.get_default_instance()
+        for step in h:
+            try:
+                if step[0] == 'add_keywords':
+                    lex.add_keywords({w: _c20_ttype(t) for w, t in step[1]})
+                elif step[0] == 'set_regex':
+                    lex.set_SQL_REGEX(_c20_regex(step[1]))
+                elif step[0] == 'clear':
+                    lex.clear()
+                elif step[0] == 'replace_keywords':
+                    lex.clear()
+                    lex.set_SQL_REGEX(_c20_regex('default'))
+                    lex.add_keywords({w: _c20_ttype(t) for w, t in step[1]})
+                elif step[0] == 'call':
+                    _c20_call(step[1], step[2], step[3])
+            except Exception:
+                pass
+        lex.default_initialization()
+    elif kind in ('options_seq', 'vs_fresh'):
+        for api, text, opts in h:
+            _c20_call(api, text, opts)
+    return keep
+
+
+_C20_FRESH_CHILD = r'''
+import sys, json
+sys.path.insert(0, sys.argv[1]); sys.path.insert(0, sys.argv[2])
+from pyvc import oracles_c
+probes = json.loads(sys.argv[3])
+out = [oracles_c._c20_call(a, t, tuple(tuple(o) for o in opts)) for a, t, opts in probes]
+sys.stdout.write('\n@@RESULT@@' + json.dumps(out) + '\n')
+'''
+
+_C20_RACE_CHILD = r'''
+import sys, json, threading
+sys.path.insert(0, sys.argv[1]); sys.path.insert(0, sys.argv[2])
+n, calls, switch = json.loads(sys.argv[3])
+import sqlparse                      # import only; no call has been made yet
+from pyvc import oracles_c
+sys.setswitchinterval(switch)
+barrier = threading.Barrier(n)
+results = [None] * n
+
+
+def work(i):
+    a, t, opts = calls[i % len(calls)]
+    opts = tuple(tuple(o) for o in opts)
+    try:
+        barrier.wait(30)
+    except Exception:
+        pass
+    try:
+        results[i] = oracles_c._c20_call(a, t, opts)
+    except BaseException as e:
+        results[i] = ['raised-outside', type(e).__name__]
+
+
+ths = [threading.Thread(target=work, args=(i,)) for i in range(n)]
+for t in ths:
+    t.start()
+for t in ths:
+    t.join(60)
+sys.stdout.write('\n@@RESULT@@' + json.dumps(results) + '\n')
+'''
+
+
+def _c20_child(script, payload):
+    env = dict(os.environ)
+    env['PYTHONPATH'] = core.REPO
+    env.pop('PYTHONSTARTUP', None)
+    p = subprocess.run([_python(), '-c', script, core.REPO, core.VERIF, json.dumps(payload)], capture_output=True,
+                       timeout=120, env=env)
+    outp = p.stdout.decode('utf-8', 'replace')
+    if p.returncode != 0 or '@@RESULT@@' not in outp:
+        return None, 'exit %s: %s' % (p.returncode, p.stderr.decode('utf-8', 'replace')[-300:])
+    return json.loads(outp.rsplit('@@RESULT@@', 1)[1].strip()), None
+
+
+def _jsonable(x):
+    return json.loads(json.dumps(x))
+
+
+def oracle_C20(case):
+    import threading
+    try:
+        kind, params = case
+    except Exception:
+        return None
+    try:
+        from sqlparse.lexer import Lexer
+    except Exception as e:
+        return {'what': _exc(e), 'input': case, 'observed': str(e), 'expected': 'import'}
+    old_limit = sys.getrecursionlimit()
+    old_switch = sys.getswitchinterval()
+    try:
+        if kind in ('raise_options', 'raise_recursion', 'abandon', 'reconfig', 'options_seq'):
+            probes, h = params
+            before = [_c20_call(*p) for p in probes]
+            keep = _c20_history(kind, h)
+            after = [_c20_call(*p) for p in probes]
+            del keep
+            for p, b, a in zip(probes, before, after):
+                if a != b:
+                    return {'what': 'history:' + kind, 'input': _clip(case, 400), 'observed': _clip((p, a), 250),
+                            'expected': _clip(b, 250)}
+            return None
+        if kind == 'vs_fresh':
+            probes, h = params
+            _c20_history(kind, h)
+            here = _jsonable([_c20_call(*p) for p in probes])
+            fresh, err = _c20_child(_C20_FRESH_CHILD, [list(p) for p in probes])
+            if fresh is None:
+                return {'what': 'fresh-child-failed', 'input': _clip(case, 400), 'observed': err, 'expected': 'results'}
+            for p, f, a in zip(probes, fresh, here):
+                if a != f:
+                    return {'what': 'history:vs_fresh', 'input': _clip(case, 400), 'observed': _clip((p, a), 250),
+                            'expected': _clip(f, 250)}
+            return None
+        if kind == 'interleave':
+            what, texts, schedule = params
+            import sqlparse
+            if what == 'parsestream':
+                alone = [[_plain_tree(s) for s in sqlparse.parse(t)] for t in texts]
+                gens = [sqlparse.parsestream(t) for t in texts]
+                conv = _plain_tree
+            else:
+                alone = [[(str(a), b) for a, b in sqlparse.lexer.tokenize(t)] for t in texts]
+                gens = [sqlparse.lexer.tokenize(t) for t in texts]
+                conv = lambda tv: (str(tv[0]), tv[1])   # noqa: E731
+            got = [[] for _ in texts]
+            live = set(range(len(texts)))
+            si = 0
+            guard = 0
+            while live and guard < 200000:
+                guard += 1
+                i = schedule[si % len(schedule)] % len(texts)
+                si += 1
+                if i not in live:
+                    i = min(live)
+                try:
+                    got[i].append(conv(next(gens[i])))
+                except StopIteration:
+                    live.discard(i)
+                except Exception as e:
+                    got[i].append(('raised', type(e).__name__))
+                    live.discard(i)
+            for t, g, a in zip(texts, got, alone):
+                if g != a:
+                    return {'what': 'interleave:' + what, 'input': _clip(case, 400), 'observed': _clip((t, g), 250),
+                            'expected': _clip(a, 250)}
+            return None
+        if kind == 'threads':
+            jobs, repeats = params
+            expected = [[_c20_call(*c) for c in job] for job in jobs]
+            n = len(jobs)
+            barrier = threading.Barrier(n)
+            results = [None] * n
+
+            def work(i):
+                out = []
+                try:
+                    barrier.wait(30)
+                except Exception:
+                    pass
+                for _ in range(repeats):
+                    out.append([_c20_call(*c) for c in jobs[i]])
+                results[i] = out
+            sys.setswitchinterval(1e-6)
+            ths = [threading.Thread(target=work, args=(i,)) for i in range(n)]
+            for t in ths:
+                t.start()
+            for t in ths:
+                t.join(120)
+            sys.setswitchinterval(old_switch)
+            for i in range(n):
+                if results[i] is None:
+                    return {'what': 'threads:no-result', 'input': _clip(case, 400), 'observed': None, 'expected': 'results'}
+                for rep in results[i]:
+                    for c, g, e in zip(jobs[i], rep, expected[i]):
+                        if g != e:
+                            return {'what': 'threads:result-differs', 'input': _clip(case, 400),
+                                    'observed': _clip((c, g), 250), 'expected': _clip(e, 250)}
+            return None
+        if kind == 'first_call_race':
+            n, calls, switch = params
+            expected = _jsonable([_c20_call(*calls[i % len(calls)]) for i in range(n)])
+            got, err = _c20_child(_C20_RACE_CHILD, [n, [list(c) for c in calls], switch])
+            if got is None:
+                return {'what': 'race-child-failed', 'input': _clip(case, 400), 'observed': err, 'expected': 'results'}
+            for i, (g, e) in enumerate(zip(got, expected)):
+                if g != e:
+                    return {'what': 'first-call-race', 'input': _clip(case, 400), 'observed': _clip((i, g), 250),
+                            'expected': _clip(e, 250)}
+            return None
+        return None
+    except BaseException as e:
+        if isinstance(e, (KeyboardInterrupt, SystemExit)):
+            raise
+        return {'what': 'oracle-' + _exc(e), 'input': _clip(case, 400), 'observed': _clip(str(e)), 'expected': 'comparison'}
+    finally:
+        try:
+            sys.setrecursionlimit(old_limit)
+            sys.setswitchinterval(old_switch)
+            Lexer.get_default_instance().default_initialization()
+        except BaseException:
+            pass
+
+
+def _c20_probe(rnd, texts):
+    api = rnd.choice(('parse', 'split', 'format', 'format', 'format', 'tokens'))
+    text = rnd.choice(texts)
+    opts = ()
+    if api == 'format':
+        opts = rnd.choice(_C20_OPTSETS)
+    elif api == 'split' and rnd.random() < 0.3:
+        opts = (('strip_semicolon', True),)
+    return (api, text, opts)
+
+
+def cases_C20(tier, seed):
+    from pyvc.domain import render
+    rnd = random.Random(seed * 7331 + 20)
+    mult = 1 if tier == 'quick' else 10
+    texts = list(_C20_TEXTS)
+    for _ in range(30 * mult):
+        g = Grammar(seed=rnd.randrange(1 << 30), max_depth=1, kw_case=rnd.choice(('upper', 'lower')))
+        lex = g.plain_stmt() if rnd.random() < 0.8 else g.proc(d=1)
+        texts.append(render(lex, rnd, seps=(' ', '\n'), glue=True))
+    texts = [t for t in texts if len(t) < 400]
+
+    def probes(k=5):
+        return tuple(_c20_probe(rnd, texts) for _ in range(k))
+
+    children = []
+    for _ in range(24 * mult):
+        n = rnd.choice((8, 8, 12, 16))
+        calls = tuple(('parse', rnd.choice(texts[:12]), ()) if rnd.random() < 0.7 else
+                      ('format', rnd.choice(texts[:12]), rnd.choice(_C20_OPTSETS[:4])) for _ in range(rnd.choice((1, 2, 4))))
+        children.append(('first_call_race', (n, calls, rnd.choice((1e-6, 1e-5, 0.005)))))
+    for _ in range(16 * mult):
+        hist = tuple(_c20_probe(rnd, texts) for _ in range(rnd.randint(5, 15)))
+        children.append(('vs_fresh', (probes(6), hist)))
+    seq = []
+    for _ in range(220 * mult):
+        h = tuple((rnd.choice(texts), rnd.choice(_C20_BAD_OPTS)) for _ in range(rnd.randint(1, 4)))
+        seq.append(('raise_options', (probes(), h)))
+    for _ in range(120 * mult):
+        seq.append(('raise_recursion', (probes(4), (rnd.choice(('paren', 'case', 'func', 'unclosed')),
+                                                    rnd.choice((200, 1000, 3000)), rnd.choice((60, 100, 150)),
+                                                    rnd.choice(('parse', 'split', 'format'))))))
+    multi = [t for t in texts if ';' in t] + ['select 1; select 2; select 3; select 4']
+    for _ in range(220 * mult):
+        h = tuple((rnd.choice(('parsestream', 'tokenize', 'stack')), rnd.choice(multi), rnd.randint(0, 4),
+                   rnd.choice(('drop', 'keep', 'close'))) for _ in range(rnd.randint(1, 3)))
+        seq.append(('abandon', (probes(), h)))
+    for _ in range(220 * mult):
+        k = rnd.randint(2, 4)
+        ts = tuple(rnd.choice(multi if rnd.random() < 0.6 else texts) for _ in range(k))
+        sched = tuple(rnd.randrange(k) for _ in range(rnd.randint(3, 12)))
+        seq.append(('interleave', (rnd.choice(('parsestream', 'tokenize')), ts, sched)))
+    kwsets = ((('FOO', 'Keyword.DML'), ('BAR', 'Keyword')), (('SELECT', 'Name'), ('FROM', 'Name')),
+              (('T', 'Keyword.DDL'), ('A', 'Keyword'), ('X', 'Name.Builtin')), (('ZZZ', 'Error'),))
+    for _ in range(300 * mult):
+        steps = []
+        for _s in range(rnd.randint(1, 5)):
+            r = rnd.random()
+            if r < 0.25:
+                steps.append(('add_keywords', rnd.choice(kwsets)))
+            elif r < 0.45:
+                steps.append(('set_regex', rnd.choice(('words_only', 'default_reversed', 'no_keyword_rule', 'empty'))))
+            elif r < 0.55:
+                steps.append(('clear',))
+            elif r < 0.7:
+                steps.append(('replace_keywords', rnd.choice(kwsets)))
+            else:
+                steps.append(('call',) + _c20_probe(rnd, texts))
+        seq.append(('reconfig', (probes(), tuple(steps))))
+    for _ in range(350 * mult):
+        h = tuple(_c20_probe(rnd, texts) for _ in range(rnd.randint(10, 30)))
+        seq.append(('options_seq', (probes(), h)))
+    # repeated identical option sets (filter state): format(a, o) then format(b, o)
+    for o in _C20_OPTSETS:
+        for _ in range(6 * mult):
+            a, b = rnd.choice(texts), rnd.choice(texts)
+            seq.append(('options_seq', ((('format', b, o), ('format', a, o)), (('format', a, o), ('format', a, o),
+                                                                              ('format', b, o)))))
+    for _ in range(160 * mult):
+        n = rnd.choice((2, 4, 6, 8))
+        jobs = tuple(tuple(_c20_probe(rnd, texts) for _ in range(rnd.randint(2, 5))) for _ in range(n))
+        seq.append(('threads', (jobs, rnd.choice((2, 4, 6)))))
+    rnd.shuffle(seq)
+    every = max(1, len(seq) // (len(children) + 1))
+    ci = 0
+    for i, c in enumerate(seq):
+        yield c
+        if (i + 1) % every == 0 and ci < len(children):
+            yield children[ci]
+            ci += 1
+    while ci < len(children):
+        yield children[ci]
+        ci += 1
+
+
+def classify_C20(case, failure):
+    return None
+
+
+def smoke_C20():
+    p = (('parse', 'select a, b from t where x = 1', ()), ('format', 'select a, b from t; select 2', (('output_format', 'python'),)),
+         ('split', 'select 1; select 2', ()), ('format', 'select a from t where b = 1', (('reindent', True),)))
+    return [
+        ('raise_options', (p, (('select 1', (('reindent', 2),)), ('select 1', (('keyword_case', 'foo'),))))),
+        ('raise_recursion', (p, ('paren', 1000, 100, 'parse'))),
+        ('abandon', (p, (('parsestream', 'select 1; select 2; select 3', 1, 'drop'),))),
+        ('interleave', ('parsestream', ('select 1; select 2', 'insert into t values (1); select 3'), (0, 1, 1, 0))),
+        ('reconfig', (p, (('add_keywords', (('FOO', 'Keyword.DML'),)), ('clear',), ('call', 'parse', 'select 1', ())))),
+        ('options_seq', (p, (('format', 'select a, b from t', (('output_format', 'python'),)),) * 3)),
+        ('threads', (((p[0], p[1]), (p[2], p[3]), (p[3], p[0])), 3)),
+        ('first_call_race', (8, (('parse', 'select a, b from t where x = 1', ()),), 1e-6)),
+        ('vs_fresh', (p, (('format', 'select 1', (('reindent', True),)),))),
     ]
